@@ -6,6 +6,7 @@ mod partial;
 mod idem;
 mod globsyntax;
 mod filter;
+mod cli;
 use corrlib::*;
 use pathgen::*;
 use serde_json::json;
@@ -557,6 +558,7 @@ pub fn run(rep: &mut Report) {
     idem::run(rep);
     globsyntax::run(rep);
     filter::run(rep);
+    cli::run(rep);
     rep.notes.push("Java/Kotlin keys (map_partial_path): see part Partial (src/partial.rs); in the streams above (exclusion markers: part Filter, src/filter.rs) keys whose first character is a cased non-ASCII letter are outside the generated domain; relative keys without source dir are resolved against the process cwd, which the harness sets to <tree>/cw".into());
 }
 
@@ -591,6 +593,7 @@ pub fn replay(rep: &mut Report, case: &serde_json::Value) {
         op if op.starts_with("c11.idem") => idem::replay(rep, case),
         op if op.starts_with("c11.glob") => globsyntax::replay(rep, case),
         op if op.starts_with("c11.filter") => filter::replay(rep, case),
+        "c11.cli" => rep.notes.push("c11.cli replays: re-run ./check C11 with the same seed (the options and keys are in the replay file)".into()),
         _ => {}
     }
 }
